@@ -298,6 +298,12 @@ def int_constants(fn, types=None):
                 if o[0] == "k" and isinstance(o[1].get("v"), int) and not isinstance(o[1].get("v"), bool):
                     if types is None or o[1].get("t") in types:
                         out.append((o[1].get("t"), o[1]["v"]))
+        t = fn.term(b)
+        if t[0] == "call":
+            for o in t[2]:
+                if o[0] == "k" and isinstance(o[1].get("v"), int) and not isinstance(o[1].get("v"), bool):
+                    if types is None or o[1].get("t") in types:
+                        out.append((o[1].get("t"), o[1]["v"]))
     return out
 
 
